@@ -14,7 +14,14 @@ import (
 	"bufio"
 	"context"
 	"crypto"
+	"crypto/ecdsa"
+	"crypto/elliptic"
+	"crypto/rand"
 	"crypto/tls"
+	"crypto/x509"
+	"crypto/x509/pkix"
+	"encoding/asn1"
+	"math/big"
 	"encoding/json"
 	"fmt"
 	"os"
@@ -26,7 +33,9 @@ import (
 	dtlsflight "github.com/pion/dtls/v3/internal/flight"
 	dtlscrypto "github.com/pion/dtls/v3/internal/handshakecrypto"
 	dtlsstate "github.com/pion/dtls/v3/internal/state"
+	"github.com/pion/dtls/v3/pkg/crypto/hash"
 	"github.com/pion/dtls/v3/pkg/crypto/prf"
+	"github.com/pion/dtls/v3/pkg/crypto/signature"
 	"github.com/pion/dtls/v3/pkg/protocol/handshake"
 )
 
@@ -54,6 +63,52 @@ type c03Result struct {
 	DataLeak  bool   `json:"dataLeak"`
 	Lab       string `json:"lab,omitempty"`
 	Panic     string `json:"panic,omitempty"`
+}
+
+var (
+	c03RogueCAOnce sync.Once       //nolint:gochecknoglobals
+	c03RogueCA     tls.Certificate //nolint:gochecknoglobals
+)
+
+// c03GetRogueCA: a self-signed certificate of the rogue that is flagged as a CA (so that a verifier which
+// "re-orders" chains would treat the victim's leaf behind it as the end entity).
+func c03GetRogueCA() tls.Certificate {
+	c03RogueCAOnce.Do(func() {
+		k, _ := ecdsa.GenerateKey(elliptic.P256(), rand.Reader)
+		t := &x509.Certificate{
+			SerialNumber: big.NewInt(77), Subject: pkix.Name{CommonName: "rogue root"}, DNSNames: []string{labServerName},
+			NotBefore: time.Now().Add(-time.Hour), NotAfter: time.Now().Add(100 * time.Hour),
+			KeyUsage: x509.KeyUsageCertSign | x509.KeyUsageDigitalSignature, IsCA: true, BasicConstraintsValid: true,
+			ExtKeyUsage: []x509.ExtKeyUsage{x509.ExtKeyUsageServerAuth, x509.ExtKeyUsageClientAuth},
+		}
+		der, _ := x509.CreateCertificate(rand.Reader, t, t, &k.PublicKey, k)
+		c03RogueCA = tls.Certificate{Certificate: [][]byte{der}, PrivateKey: k}
+	})
+
+	return c03RogueCA
+}
+
+// c03ForgeECDSA builds an ECDSA signature that verifies for public key pub over an EMPTY digest (e = 0):
+// R = b*Q, r = R.x, s = r / b.  It needs no private key; it is only "valid" for a verifier that hashes
+// with an algorithm that yields no digest (scheme / key-type confusion).
+func c03ForgeECDSA(leafDER []byte) []byte {
+	cert, err := x509.ParseCertificate(leafDER)
+	if err != nil {
+		return nil
+	}
+	pub, ok := cert.PublicKey.(*ecdsa.PublicKey)
+	if !ok {
+		return nil
+	}
+	n := pub.Curve.Params().N
+	b := big.NewInt(0x1234567)
+	rx, _ := pub.Curve.ScalarMult(pub.X, pub.Y, b.Bytes()) //nolint:staticcheck
+	r := new(big.Int).Mod(rx, n)
+	sVal := new(big.Int).Mul(r, new(big.Int).ModInverse(b, n))
+	sVal.Mod(sVal, n)
+	der, _ := asn1.Marshal(struct{ R, S *big.Int }{r, sVal})
+
+	return der
 }
 
 func c03HS(p *dtlsflight.Packet) (*handshake.Handshake, bool) {
@@ -124,7 +179,10 @@ func c03Filter(cs *c03Case, rogue *labPeer, subst [][]byte, otherKey crypto.Sign
 				}
 			case *handshake.MessageServerKeyExchange:
 				if len(m.Signature) > 0 {
-					if dropProof {
+					if cs.Dev == "forgedProof" && subst != nil {
+						m.HashAlgorithm, m.SignatureAlgorithm = hash.Ed25519, signature.Ed25519
+						m.Signature, touched = c03ForgeECDSA(subst[0]), true
+					} else if dropProof {
 						m.Signature, touched = []byte{}, true
 					} else if cs.Dev == "corruptProof" {
 						m.Signature = append([]byte(nil), m.Signature...)
@@ -138,7 +196,10 @@ func c03Filter(cs *c03Case, rogue *labPeer, subst [][]byte, otherKey crypto.Sign
 
 					continue
 				}
-				if cs.Dev == "corruptProof" {
+				if cs.Dev == "forgedProof" && subst != nil {
+					m.HashAlgorithm, m.SignatureAlgorithm = hash.Ed25519, signature.Ed25519
+					m.Signature, touched = c03ForgeECDSA(subst[0]), true
+				} else if cs.Dev == "corruptProof" {
 					touched = true
 					if len(m.Signature) > 0 {
 						m.Signature = append([]byte(nil), m.Signature...)
@@ -157,7 +218,7 @@ func c03Filter(cs *c03Case, rogue *labPeer, subst [][]byte, otherKey crypto.Sign
 		// a DTLS 1.2 client computed CertificateVerify and Finished over the flight as generated: make them consistent
 		// with the flight as it is really sent (the rogue is competent)
 		if cs.Ver == 12 && cs.Honest == "s" {
-			c03RecomputeClientFlight(rogue, out, cs.Dev == "corruptProof")
+			c03RecomputeClientFlight(rogue, out, cs.Dev == "corruptProof" || cs.Dev == "forgedProof")
 		}
 
 		return out
@@ -252,6 +313,23 @@ func runC03Case(idx int, cs *c03Case) (res c03Result) { //nolint:cyclop,gocognit
 			good = p.serverRSA
 		}
 		pick := func(server bool) (tls.Certificate, bool) {
+			victim := good.Certificate
+			if !server {
+				victim = p.client.Certificate
+			}
+			if cs.Dev == "mixedChain" { // own CA-flagged certificate first (its key signs), the victim's chain behind it
+				rc := c03GetRogueCA()
+
+				return tls.Certificate{Certificate: append(append([][]byte(nil), rc.Certificate...), victim...), PrivateKey: rc.PrivateKey}, true
+			}
+			if cs.Dev == "forgedProof" { // the victim's public chain with a proof forged without its key
+				subst = victim
+				if server {
+					return p.rogue, true
+				}
+
+				return p.rogueCli, true
+			}
 			switch cs.Cred {
 			case "good":
 				if server {
@@ -315,7 +393,7 @@ func runC03Case(idx int, cs *c03Case) (res c03Result) { //nolint:cyclop,gocognit
 		honest, rogue = r.s, r.c
 	}
 	applied := false
-	if cs.Auth == "cert" && (cs.Dev != "none" || subst != nil) {
+	if cs.Auth == "cert" && cs.Dev != "mixedChain" && (cs.Dev != "none" || subst != nil) {
 		rogue.filter = c03Filter(cs, rogue, subst, otherKey, &applied)
 	}
 	r.net.mu.Lock()
@@ -376,7 +454,7 @@ func runC03Case(idx int, cs *c03Case) (res c03Result) { //nolint:cyclop,gocognit
 	}
 	res.HonestEst, res.RogueEst = honest.hsErr == nil, rogue.hsErr == nil
 	res.HonestErr, res.RogueErr = errString(honest.hsErr), errString(rogue.hsErr)
-	res.Applied = applied || cs.Dev == "none" && subst == nil
+	res.Applied = applied || cs.Dev == "mixedChain" || cs.Dev == "none" && subst == nil
 
 	return res
 }
